@@ -157,8 +157,12 @@ pub fn execute(c: &C11Cfg, ctl: &[String]) {
                         Ok(Ok(false)) => out.push("f".to_string()),
                         Ok(Err(e)) => {
                             let msg = e.to_string();
-                            out.push(if msg.contains("without completing") { "timeout".into() } else { "software".into() });
-                            break;
+                            if msg.contains("without completing") {
+                                out.push("timeout".into());
+                                break;
+                            }
+                            // a software error is reported once; the simulation can be driven on
+                            out.push("software".into());
                         }
                         Err(_) => {
                             out.push("panic".into());
@@ -238,8 +242,18 @@ pub fn generate(rng: &mut Rng, idx: usize) -> (C11Cfg, Vec<String>) {
     }
     if rng.chance(1, 3) {
         ctl.push(format!("stepn {}", limit_steps + 3));
+        if rng.chance(1, 2) {
+            // keep driving the same Sim after whatever happened (an error is reported exactly once,
+            // finished software is never polled again)
+            ctl.push(format!("stepn {}", rng.range(1, 4)));
+        }
     } else {
         ctl.push("run".into());
+        if rng.chance(1, 4) {
+            // after a host error `run` may be called again so that the remaining clients can finish
+            ctl.push("run".into());
+            ctl.push(format!("stepn {}", rng.range(1, 3)));
+        }
         if rng.chance(1, 3) {
             // a client registered after an earlier run, then run again
             ctl.push(format!("sw client at={} outcome={} spawned=0", times(rng), *rng.pick(&["ok", "ok", "err", "never"])));
